@@ -406,6 +406,25 @@ fn roundtrip_model(rep: &mut Report, name: &str, xml: &str, fsm: &Fsm, variant: 
                 return None;
             }
             rep.count(&format!("models_roundtripped_{}", variant), 1);
+            // the same image through buffered streams, as the platform itself reads .rfsm files (BufReader<File>):
+            // `Read::read` may return fewer bytes than asked for wherever the range crosses the buffer end
+            let caps: &[usize] = if variant == "plain" { &[5, 61, 509] } else { &[127] };
+            for cap in caps {
+                rep.evaluations += 1;
+                let outcome = read_model(std::io::BufReader::with_capacity(*cap, &img.bytes[..]));
+                judge_stream_read(rep, outcome, &want, name, variant, xml, &format!("BufReader({})", cap));
+            }
+            if variant == "plain" && img.bytes.len() > 600 {
+                let path = std::env::temp_dir().join(format!("rv-c05-{}-{}.rfsm", std::process::id(), crate::rng::fnv(name) % 1000));
+                if std::fs::write(&path, &img.bytes).is_ok() {
+                    if let Ok(f) = std::fs::File::open(&path) {
+                        rep.evaluations += 1;
+                        let outcome = read_model(std::io::BufReader::with_capacity(256, f));
+                        judge_stream_read(rep, outcome, &want, name, variant, xml, "BufReader<File>(256)");
+                    }
+                    let _ = std::fs::remove_file(&path);
+                }
+            }
             Some(f2)
         }
         ReadOutcome::Err(e) => {
@@ -424,6 +443,34 @@ fn roundtrip_model(rep: &mut Report, name: &str, xml: &str, fsm: &Fsm, variant: 
             );
             None
         }
+    }
+}
+
+fn judge_stream_read(rep: &mut Report, outcome: ReadOutcome, want: &serde_json::Value, name: &str, variant: &str, xml: &str, how: &str) {
+    let kind = how.split('(').next().unwrap_or(how);
+    match outcome {
+        ReadOutcome::Ok(f3) => {
+            let got = dump(&f3, &CanonOpts { for_roundtrip: true });
+            if let Some(d) = diff(want, &got, "model") {
+                rep.violation(
+                    &format!("model-roundtrip-differs-through-buffered-stream:{}", kind),
+                    &format!("model {} ({}) read back through {} differs: {}", name, variant, how, d),
+                    json!({"model": name, "variant": variant, "xml": xml, "stream": how, "diff": d}),
+                );
+            } else {
+                rep.count("models_read_back_through_buffered_streams", 1);
+            }
+        }
+        ReadOutcome::Err(e) => rep.violation(
+            &format!("model-image-rejected-through-buffered-stream:{}", kind),
+            &format!("the image of model {} ({}) reads from memory but is rejected through {}: {}", name, variant, how, e),
+            json!({"model": name, "variant": variant, "xml": xml, "stream": how}),
+        ),
+        ReadOutcome::Panic(p) => rep.violation(
+            &format!("model-reader-panic-through-buffered-stream:{}", p.rsplit(" @ ").next().unwrap_or("?")),
+            &format!("reading the image of model {} ({}) through {} panicked: {}", name, variant, how, p),
+            json!({"model": name, "variant": variant, "xml": xml, "stream": how}),
+        ),
     }
 }
 
